@@ -178,6 +178,36 @@ theorem caps_exact_attained (qcap : Nat) (hq : 0 < qcap) (b64 : List Nat → Opt
   refine ⟨ls, st, hi, hr, hph, ?_⟩
   rw [hc, e1, e2, hpg]; rfl
 
+/-- **… also with the probe answered**: for every cursor-position report `CSI r;c R` arriving first
+(handed to the `CursorPosition()` of the explicit-width probe) followed by any such stream, there is
+a complete start-up whose record is `specCaps` of everything received with the probe's column `c` —
+in particular `explicitWidth` is set iff `c = 2`. -/
+theorem caps_exact_attained_probe (qcap : Nat) (hq : 0 < qcap) (b64 : List Nat → Option (List Nat)) (o : Opts)
+    (henv : o.envUnset = true) (r c : Int) (hc : -9223372036854775808 ≤ c ∧ c < 9223372036854775808)
+    (A : List Seq) (d : Seq) (hw : ∀ s ∈ A ++ [d], VaxisModel.Lemmas.Input.WfSeq s)
+    (hA : ∀ s ∈ A, isDA1 s = false) (hd : isDA1 d = true) :
+    ∃ ls st, inputsOf ls = .csi [] [[r], [c]] 82 :: (A ++ [d]) ∧
+      VaxisModel.Model.Startup.run { qcap := qcap, kinds := Kinds.ofGen, b64 := b64 } o (St.init o) ls = some st ∧
+      st.phase = .ready ∧ st.sys.vs.caps = specCaps o (.csi [] [[r], [c]] 82 :: (A ++ [d])) (some c) := by
+  have e : Kinds.ofGen = ⟨.nonblocking, .nonblocking, .nonblocking, .nonblocking, .nonblocking, .timeout⟩ := by decide
+  have hk : VaxisModel.Lemmas.InputLoop.Kinds.safe Kinds.ofGen := by
+    rw [e]; simp [VaxisModel.Lemmas.InputLoop.Kinds.safe]
+  have hcap : cursorCapGen = 1 := by decide
+  obtain ⟨ls, st, hi, hr, hph, hto, hdr, hpg⟩ :=
+    VaxisModel.Lemmas.StartupLive.startup_completes_answered { qcap := qcap, kinds := Kinds.ofGen, b64 := b64 } o hq hk hcap
+      (by rw [e]) r c A d hw hA hd
+  obtain ⟨A', d', B, hs, hd', hA', hcaps⟩ := caps_exact _ o ls st hr hph hto hdr henv
+    (by intro x hx; rw [hpg] at hx; cases hx; exact hc)
+  rw [hi] at hs
+  have hcpr : isDA1 (.csi [] [[r], [c]] 82) = false := by
+    simp [isDA1, notices, noticesCSI]
+  obtain ⟨e1, e2, _⟩ := VaxisModel.Lemmas.StartupLive.split_unique (.csi [] [[r], [c]] 82 :: A) A' B d d' (by simpa using hs)
+    (by intro s hs'; rcases List.mem_cons.mp hs' with h | h
+        · rw [h]; exact hcpr
+        · exact hA s h) hd hA' hd'
+  refine ⟨ls, st, hi, hr, hph, ?_⟩
+  rw [hcaps, e1, e2, hpg]; rfl
+
 /-- **caps_sound** (no side conditions): at every state a run can reach before `applyQuirks` —
 whether the loop is still running, ended by DA1 or by its time-out, whatever was dropped — every
 capability flag that is set was advertised by a reply received no later than the first DA1 reply
